@@ -20,6 +20,11 @@ SetToSeq(S) == CHOOSE f \in [1..Cardinality(S) -> S] : \A i, j \in 1..Cardinalit
 Rows == { [cfg |-> cf, s |-> s, e |-> e, t |-> C!StepCtl(cf, s, e)] :
             cf \in Cfgs, s \in {x \in States : x.pc <= x.steps}, e \in C!Events }
 
+\* the unbounded (Apalache) model ControllersInd uses the same transition function
+I == INSTANCE ControllersInd WITH max <- 0, pat <- 0, steps <- 0, pc <- 0, cont <- TRUE, n <- 0, trail <- 0, caused <- FALSE
+ASSUME \A r \in Rows : I!StepFn(r.cfg.max, r.cfg.pat, r.s.steps, r.s.pc, r.s.cont, r.e.dec # "big", r.e.kill)
+                        = <<r.t.steps, r.t.pc, r.t.cont>>
+
 ASSUME JsonSerialize(IOEnv.OUT_FILE, [init |-> C!InitCtl, rows |-> Rows])
 ASSUME PrintT(<<"ROWS", Cardinality(Rows)>>)
 
